@@ -285,6 +285,12 @@ func richSetup(nAcc, nVal int) richMid {
 		_ = gk.AssignRoleToAccount(ctx, A[nVal+2], rb)
 		_ = gk.AssignRoleToAccount(ctx, A[nVal+2], ra)
 		_ = gk.AssignRoleToAccount(ctx, A[nVal+3], ra)
+		// role a also WHITELISTS two gated permissions, role b BLACKLISTS them: the account holding both is refused, on
+		// every replica (a blacklist anywhere beats every whitelist, whatever the order the roles are looked at)
+		for _, pv := range []govtypes.PermValue{govtypes.PermUpsertRole, govtypes.PermChangeTxFee} {
+			_ = gk.WhitelistRolePermission(ctx, ra, pv)
+			_ = gk.BlacklistRolePermission(ctx, rb, pv)
+		}
 		// token infos: ueth usable for fees and staking, a mintable token owned by sudo
 		_ = app.TokensKeeper.UpsertTokenInfo(ctx, tokenstypes.NewTokenInfo("ueth", "adr20", sdk.NewDecWithPrec(1, 1), true, sdkmath.ZeroInt(), sdkmath.ZeroInt(), sdk.NewDecWithPrec(10, 2), sdkmath.NewInt(20_000), true, false, "ETH", "Ether", "", 18, "", "", "", 0, sdkmath.ZeroInt(), "", false, "", ""))
 		_ = app.TokensKeeper.UpsertTokenInfo(ctx, tokenstypes.NewTokenInfo("ku/rich", "adr20", sdk.NewDecWithPrec(1, 2), false, sdkmath.ZeroInt(), sdkmath.NewInt(1_000_000_000_000), sdk.ZeroDec(), sdk.OneInt(), false, false, "RICH", "Rich", "", 6, "", "", "", 0, sdkmath.ZeroInt(), A[sudo].String(), false, "", ""))
